@@ -12,7 +12,7 @@ From SP Require Import Base.Sat Base.Bits Core.Card Core.CardProofs.
 From SP Require Import Logic.Formula.
 From SP Require Import Design.Flat Design.Layout Design.Sem.
 From SP Require Import Encode.Compile Encode.CodeSem Encode.Generic Encode.Blocks Encode.Runs
-     Encode.GridLemmas Encode.LayoutF1 Encode.F1Kinds Encode.F1Cross Encode.F1Deriv Encode.F1DerivC Encode.F1Sem Encode.F1Sustain
+     Encode.GridLemmas Encode.LayoutF1 Encode.F1Kinds Encode.F1Cross Encode.F1Deriv Encode.F1DerivC Encode.F1Sem Encode.F1Sustain Encode.F1Latin
      Encode.F1CrossSem Encode.F1DerivSem Encode.F1InARow Encode.F1Sequential Encode.F1Excl.
 Import ListNotations.
 Close Scope Z_scope.
@@ -38,6 +38,7 @@ Definition Pc (c : fconstraint) (s : asg) : Prop :=
   | FAtLeast k f l wb => Patleast fb k f l wb s
   | FExactlyKInARow k f l wb => Pexactrow fb k f l wb s
   | FSequential f => Psequential fb f s
+  | FLatin fs => Platin fb fs s
   | FExclude f l => Pexclude fb f l s
   | FPin i f l wb => Ppin fb i f l wb s
   | _ => True
@@ -74,6 +75,7 @@ Proof.
   - exact (step_nothing fresh ct Hfr E).
   - exact (step_nothing fresh ct Hfr E).
   - exact (step_nothing fresh ct Hfr E).
+  - exact (step_latin fb HF1 HT _ Hc fresh ct Hfr E).
   - exact (step_sequential fb HF1 HT _ Hc fresh ct Hfr E).
 Qed.
 
@@ -117,6 +119,7 @@ Proof.
   - split; reflexivity.
   - split; reflexivity.
   - split; reflexivity.
+  - exact (latin_sem_c fb HF1 HT s q _ Ho Hc).
   - exact (sequential_sem fb HF1 HT s q _ Ho Hg Hc).
 Qed.
 
